@@ -360,6 +360,9 @@ func (r *renderer) stmt(s *stmt) {
 			s.line = r.ln(`G9 = -MT`)
 		case 17:
 			s.line = r.ln(`G9 = MT .. "x"`)
+		case 18:
+			// an error raised by a call hook belongs to the code whose call fired the hook
+			s.line = r.ln(`debug.sethook(function() if HK then HK = false error({id = 906}) end end, "c") HK = true G9 = type(1)`)
 		default:
 			s.line = r.ln(`G9 = ("x").y.z`)
 		}
